@@ -23,7 +23,7 @@ func Characters(s string) []Character {
 			}
 			continue
 		}
-		egcs = append(egcs, Character{cluster, w})
+		egcs = append(egcs, Character{cluster, clusterWidth(w)})
 	}
 	return egcs
 }
